@@ -601,10 +601,17 @@ func scenario(c *run.Ctx, idx int) {
 			if tx == nil {
 				continue
 			}
-			boxed := r.Chance(1, 5)
+			boxed := r.Chance(1, 4)
 			if boxed {
-				tx = B.Box(U[11], types.Transactions{tx}, tx.Expiration())
-				kind = "boxed:" + kind
+				if !a.multisig() && r.Chance(1, 2) {
+					// the box comes from the sub transaction's own sender: the box signature says nothing about the sub
+					// transaction's gas payer, and nothing about a sub transaction the sender never signed as such
+					tx = B.Box(a.own, types.Transactions{tx}, tx.Expiration())
+					kind = "boxed-by-its-sender:" + kind
+				} else {
+					tx = B.Box(U[11], types.Transactions{tx}, tx.Expiration())
+					kind = "boxed:" + kind
+				}
 			}
 			cs = append(cs, cand{tx: tx, kind: kind, expect: expect, boxed: boxed})
 		}
